@@ -47,6 +47,7 @@ type Job struct {
 	start   time.Time
 	stopped bool
 	started bool
+	end     time.Time
 	active  int
 	queued  int
 	asserts map[string]*assertStat
@@ -125,13 +126,29 @@ type workItem struct {
 type queue struct {
 	mu     sync.Mutex
 	cond   *sync.Cond
-	items  []workItem
+	items  []workItem   // initial items (one per job / vector), in job order
+	perJob [][]workItem // work of each job, LIFO inside a job; jobs are served in order
+	order  map[*Job]int
 	active int
+}
+
+func (q *queue) slot(j *Job) int {
+	if q.order == nil {
+		q.order = map[*Job]int{}
+	}
+	k, ok := q.order[j]
+	if !ok {
+		k = len(q.perJob)
+		q.order[j] = k
+		q.perJob = append(q.perJob, nil)
+	}
+	return k
 }
 
 func (q *queue) push(it workItem) {
 	q.mu.Lock()
-	q.items = append(q.items, it)
+	k := q.slot(it.job)
+	q.perJob[k] = append(q.perJob[k], it)
 	it.job.queued++
 	q.mu.Unlock()
 	q.cond.Signal()
@@ -140,26 +157,29 @@ func (q *queue) push(it workItem) {
 func (q *queue) pop() (workItem, bool) {
 	q.mu.Lock()
 	defer q.mu.Unlock()
-	for len(q.items) == 0 {
+	for {
+		for k := range q.perJob {
+			if n := len(q.perJob[k]); n > 0 {
+				it := q.perJob[k][n-1]
+				q.perJob[k] = q.perJob[k][:n-1]
+				it.job.queued--
+				it.job.active++
+				q.active++
+				return it, true
+			}
+		}
 		if q.active == 0 {
 			q.cond.Broadcast()
 			return workItem{}, false
 		}
 		q.cond.Wait()
 	}
-	it := q.items[len(q.items)-1]
-	q.items = q.items[:len(q.items)-1]
-	it.job.queued--
-	q.active++
-	return it, true
 }
 
 func (q *queue) done() {
 	q.mu.Lock()
 	q.active--
-	if q.active == 0 && len(q.items) == 0 {
-		q.cond.Broadcast()
-	}
+	q.cond.Broadcast()
 	q.mu.Unlock()
 }
 
@@ -512,10 +532,11 @@ func main() {
 			j.queued++
 		}
 	}
-	// reverse so that the first job is popped first
-	for i, k := 0, len(q.items)-1; i < k; i, k = i+1, k-1 {
-		q.items[i], q.items[k] = q.items[k], q.items[i]
+	for _, it := range q.items {
+		k := q.slot(it.job)
+		q.perJob[k] = append(q.perJob[k], it)
 	}
+	q.items = nil
 	if os.Getenv("SYMGO_PROGRESS") != "" {
 		go func() {
 			for {
@@ -560,6 +581,12 @@ func main() {
 					break
 				}
 				w.runItem(it, q)
+				q.mu.Lock()
+				it.job.active--
+				if it.job.active == 0 && it.job.queued == 0 {
+					it.job.end = time.Now()
+				}
+				q.mu.Unlock()
 				q.done()
 			}
 			tmu.Lock()
@@ -622,6 +649,9 @@ func fatal(err error) {
 
 func (j *Job) finish() {
 	j.res.WallS = time.Since(j.start).Seconds()
+	if !j.end.IsZero() && j.started {
+		j.res.WallS = j.end.Sub(j.start).Seconds()
+	}
 	j.res.Asserts = j.asserts
 	j.res.Reach = j.reach
 	j.res.Unwinds = j.unwinds
